@@ -224,11 +224,19 @@ func genWide(t *rapid.T) Case {
 			c.P[i][j] = model.Of(v)
 		}
 	}
+	// coinciding end points are moved apart, towards zero at the end of the range
+	// (five units up from the largest finite value is +Inf, outside the domain)
+	apart := func(v float64) float64 {
+		if w := nudge(v, 5); !math.IsInf(w, 0) {
+			return w
+		}
+		return nudge(v, -5)
+	}
 	if c.P[0] == c.P[1] {
-		c.P[1][0] = model.Of(nudge(c.P[1][0].V(), 5))
+		c.P[1][0] = model.Of(apart(c.P[1][0].V()))
 	}
 	if c.P[2] == c.P[3] {
-		c.P[3][1] = model.Of(nudge(c.P[3][1].V(), 5))
+		c.P[3][1] = model.Of(apart(c.P[3][1].V()))
 	}
 	c.Class = "wide:" + c.Class
 	c.Integer = false
